@@ -43,8 +43,6 @@ def run(ctx) -> None:
     ctx.section("untouched", _untouched, ctx)
     ctx.section("table", _table, ctx)
     ctx.section("accept-widen-reject", c03._setitem, ctx, "e.accept-widen-reject", "e.target-applied")
-    ctx.info("multi-column table assignment (t[0, :] = [1, 'x']) writes column 0 before column 1 rejects: the statement's "
-             "atomicity sentence speaks of 'the vector'; reported as information only")
     ctx.not_decided += ["equality with Python list assignment as values (index arithmetic of slice_length / range is numeric)"]
 
 
@@ -480,12 +478,33 @@ def _table(ctx) -> None:
     ctx.ob("f.table-delegation", f, "exact-name-first", not nm_problems and n_lookups >= 1,
            f"{n_lookups} accessor-map lookups, each after the exact stored-name search", f.node, message="; ".join(nm_problems[:2]))
     # value forms: a same-length sequence given as a VECTOR reaches the column's own assignment too (not only list / tuple)
+    def is_value(t) -> bool:
+        """the assigned value, possibly snapshotted: value / value.copy() / list(value) / [v.copy() if ... else v for v in value]"""
+        if t == VALUE:
+            return True
+        if t[0] == "ifexp":
+            return is_value(t[2]) and is_value(t[3])
+        if t[0] == "call" and t[1] == ("attr", VALUE, "copy") and not t[2] and not t[3]:
+            return True
+        if t[0] == "call" and t[1] in (("name", "list"), ("name", "tuple")) and len(t[2]) == 1 and not t[3]:
+            return is_value(t[2][0])
+        if t[0] == "obj" and it.objs[t[1]].kind == "list" and isinstance(it.objs[t[1]].node, ast.Call) and len(it.objs[t[1]].init) == 1:
+            return is_value(it.objs[t[1]].init[0])
+        if t[0] == "obj" and it.objs[t[1]].kind == "listcomp":
+            evs = [e for e in it.events if e.kind == "elem" and e.term == t]
+            if len(evs) == 1 and len(evs[0].loops) >= 1:
+                L = [x for x in evs[0].loops if x not in it.objs[t[1]].loops]
+                if len(L) == 1 and it.loops[L[0]].iter == VALUE:
+                    x = ("elem", VALUE, L[0])
+                    from ..sites2 import leaves as _lv
+                    return all(v == x or v == ("call", ("attr", x, "copy"), (), ()) for v in _lv(evs[0].value))
+        return False
     vec_form = False
     for e in cell_stores:
-        if e.value != VALUE:
+        if not is_value(e.value):
             continue
         for t, pol in flatten_conds(e.conds):
-            if pol and t[0] == "call" and t[1] == ("name", "isinstance") and len(t[2]) == 2 and t[2][0] == VALUE:
+            if pol and t[0] == "call" and t[1] == ("name", "isinstance") and len(t[2]) == 2 and is_value(t[2][0]):
                 ks = t[2][1]
                 names = {x[1] for x in ([ks] if ks[0] == "name" else list(ks[1]) if ks[0] == "tuple" else []) if x[0] == "name"}
                 if "Vector" in names:
@@ -495,14 +514,64 @@ def _table(ctx) -> None:
                    "(the natural way to replace a column's cells) is refused as an unsupported value type")
     # unsupported values raise
     fin = [e for e in it.events if e.kind == "raise" and e.term[0] == "call" and e.term[1] == ("name", "SerifTypeError")
-           and any(x == VALUE for t, pol in flatten_conds(e.conds) for x in subterms(t))
+           and any(x == VALUE for t, pol in flatten_conds(e.conds) for x in deep_subterms(it, t))
            and all(not _compatible(m.conds, e.conds) for m in cell_stores)]
-    ctx.ob("f.table-delegation", f, "final-raise", bool(fin) and not it.falls_through,
+    # all or nothing: when several columns are written one after the other, a value that a later column refuses must be refused
+    # before the first column is written - the whole assignment is rehearsed on scratch copies of the target columns
+    multi = [m for m in cell_stores if m.loops]
+    helper_depth = {m.depth for m in cell_stores}
+    rehearsal = None
+    for e in it.events:
+        if e.kind == "call" and e.term[1][0] == "attr" and e.term[1][1][0] == "call" and e.term[1][1][1] == ("name", "Table") \
+                and e.seq < min(m.seq for m in cell_stores):
+            recv_cols = e.term[1][1][2][0] if e.term[1][1][2] else None
+            copies = False
+            if recv_cols is not None and recv_cols[0] == "obj":
+                evs = [x for x in it.events if x.kind == "elem" and x.term == recv_cols]
+                copies = bool(evs) and all(x.value[0] == "call" and x.value[1][0] == "attr" and x.value[1][2] == "copy" and x.value[1][1][0] == "sub"
+                                           and x.value[1][1][1] in cols for x in evs)
+            real = [x for x in it.events if x.kind == "inline" and x.term[0] == "call" and x.term[1][0] == "name"
+                    and x.term[1][1].endswith("." + e.term[1][2])]
+            same_args = bool(real) and all(tuple(x.term[2][2:]) == tuple(e.term[2][1:]) for x in real)
+            if copies and same_args and helper_depth == {1}:
+                rehearsal = e
+    ctx.ob("f.table-delegation", f, "all-or-nothing", not multi or rehearsal is not None,
+           "several target columns: the assignment is rehearsed on copies of the target columns (same row spec, same value) before the "
+           "first column is written", (multi[0].node if multi else f.node),
+           message="Table.__setitem__ writes several target columns one after the other without rehearsing the assignment on copies first: "
+                   "t[0, :] = [10, 'x'] (second column refuses its value) leaves the first column written - a failed assignment must "
+                   "change nothing")
+    snap = all(is_value(m.value) or (m.value[0] in ("sub", "elem") and any(is_value(x) for x in subterms(m.value))) for m in cell_stores)
+    snapped = any(x[0] == "call" and x[1] == ("attr", VALUE, "copy") for m in cell_stores for x in deep_subterms(it, m.value))
+    ctx.ob("f.table-delegation", f, "key-value-snapshot", snap and snapped,
+           "a Vector key / value (possibly a live column of this table) is copied before the first column is written", f.node,
+           message="Table.__setitem__ reads its key / value while writing column after column: t[:, ['a', 'b']] = [t.b, t.a] sets both "
+                   "columns to b (the value is not snapshotted with .copy() before the first write)")
+    # (when the stores live in a private helper evaluated in line, it is the helper that must not run off its end)
+    falls = it.falls_through
+    if {m.depth for m in cell_stores} == {1}:
+        inl = [x for x in it.events if x.kind == "inline" and x.term[0] == "call" and x.term[1][0] == "name"]
+        hs = {x.term[1][1] for x in inl if x.term[1][1] in prog.functions}
+        if len(hs) == 1:
+            from ..symx import Interp as _SI2
+            falls = _SI2(prog, prog.functions[next(iter(hs))]).falls_through
+    ctx.ob("f.table-delegation", f, "final-raise", bool(fin) and not falls,
            "unsupported value types raise SerifTypeError", f.node, message="Table.__setitem__ does not end by raising for unsupported values")
 
 
 _V, _T = "vector", "table"
 MUTANTS = [
+    dict(id="table-setitem-no-rehearsal", module="table",
+         old="		if len(target_indices) > 1:\n			with warnings.catch_warnings():\n				warnings.simplefilter(\"ignore\")\n				scratch = Table([self._underlying[col_idx].copy() for col_idx in target_indices])\n				scratch._write_columns(list(range(len(target_indices))), row_spec, value)\n",
+         new="", rules=["f.table-delegation"], desc="reverts fix 07c3d22: t[0, :] = [10, 'x'] leaves the first column written"),
+    dict(id="table-setitem-rehearses-other-value", module="table",
+         old="				scratch._write_columns(list(range(len(target_indices))), row_spec, value)",
+         new="				scratch._write_columns(list(range(len(target_indices))), row_spec, None)", rules=["f.table-delegation"],
+         desc="the rehearsal does not try the value that is written"),
+    dict(id="table-setitem-no-snapshot", module="table",
+         old="		if isinstance(value, Vector):\n			value = value.copy()\n		elif isinstance(value, (list, tuple)):\n			value = [v.copy() if isinstance(v, Vector) else v for v in value]\n		elif isinstance(value, Iterator):",
+         new="		if isinstance(value, Iterator):", rules=["f.table-delegation"],
+         desc="reverts fix 2bfa5e1: t[:, ['a', 'b']] = [t.b, t.a] sets both columns to b"),
     dict(id="column-assignment-refuses-vectors", module="table",
          old="		if len(target_indices) == 1 and isinstance(value, (Vector, range)):\n			self._underlying[target_indices[0]][row_spec] = value\n			return\n",
          new="", rules=["f.table-delegation"], desc="the defect repaired by fix 23cf839"),
